@@ -92,6 +92,7 @@ type Probe struct {
 	journalOn bool
 	baseline  map[string][]byte
 	faults    []*fault
+	alias     map[string]string
 
 	gate atomic.Pointer[Gate]
 }
@@ -475,12 +476,40 @@ func (p *Probe) doPut(ctx context.Context, b physical.Backend, txn int, e *physi
 	return err
 }
 
+// Alias makes Get(key) answer with the complete entry stored under source - value AND entry
+// key - as a misbehaving or hostile physical backend could (record relocation at the entry
+// level, as opposed to planting the bytes under the other key). Unalias(key) ends it.
+func (p *Probe) Alias(key, source string) {
+	p.mu.Lock()
+	if p.alias == nil {
+		p.alias = map[string]string{}
+	}
+	p.alias[key] = source
+	p.mu.Unlock()
+}
+
+func (p *Probe) Unalias(key string) {
+	p.mu.Lock()
+	delete(p.alias, key)
+	p.mu.Unlock()
+}
+
+func (p *Probe) aliasOf(key string) string {
+	p.mu.Lock()
+	defer p.mu.Unlock()
+	return p.alias[key]
+}
+
 func (p *Probe) doGet(ctx context.Context, b physical.Backend, txn int, key string) (*physical.Entry, error) {
 	ev, err := p.pre(txn, "get", key)
 	if err != nil {
 		return nil, err
 	}
-	e, err := b.Get(ctx, key)
+	src := key
+	if a := p.aliasOf(key); a != "" {
+		src = a // hostile backend: answers with the whole entry it holds for another key (entry key included)
+	}
+	e, err := b.Get(ctx, src)
 	if e != nil {
 		ev.Found = true
 		ev.ValLen = len(e.Value)
